@@ -495,3 +495,37 @@ def make_matrix(astcls):
 
 for _cls in MATRIX_OPS:
     make_matrix(_cls)
+
+
+EOF_PREFIXES = ['SELECT', 'SELECT a,', 'SELECT a FROM', 'SELECT a WHERE', 'SELECT a WHERE a =', 'SELECT a\nFROM #t\nWHERE', 'BALANCES AT',
+                'JOURNAL FROM', 'PRINT FROM', 'SELECT (a', "SELECT 'abc", 'SELECT a ORDER BY', 'SELECT a GROUP BY a HAVING', 'SELECT f(a,']
+EOF_SUFFIXES = ['', '\n', ' \n', '\n\n', '\n  ', ' ; c\n', '\t']
+
+
+@cond('C05.loc.eof', quick=120,
+      bounds=f'{len(EOF_PREFIXES)} statements that end too early x {len(EOF_SUFFIXES)} trailers (nothing, newlines, blanks, an '
+             'end-of-line comment): a ParseError whose position lies within the text (or one past its end), whose line exists, and '
+             'that the shell renders without raising',
+      symbolic='(none)', enumerated='statement, trailer', params={'i': int, 'j': int})
+def loc_eof(i, j):
+    text = pick(EOF_PREFIXES, i) + pick(EOF_SUFFIXES, j)
+
+    def run():
+        try:
+            beanquery.parser.parse(text)
+        except beanquery.ParseError as exc:
+            info = exc.parseinfo
+            if not (0 <= info.pos <= info.endpos <= len(text) + 1):
+                return 'location-not-a-span'
+            nlines = len(text.splitlines()) or 1
+            if not 0 <= info.line < nlines:
+                return f'location-line-does-not-exist: line {info.line} of {nlines}'
+            try:
+                shell.render_exception(exc)
+            except Exception as e2:
+                return 'render-exception-raises-' + type(e2).__name__
+            return 'ok'
+        except Exception as exc:
+            return 'escapes-as-' + type(exc).__name__
+        return 'accepted-incomplete-statement'
+    return native(run)
